@@ -63,10 +63,10 @@ def tiers(tier, seed):
     if tier == "quick":
         return [dict(base, MaxLen=3, BatchBytes={0, 1, 72, 73, HUGE}, NegBatch=False, ExtraShapes={0, 22}, Ops={"logs", "stable"},
                      PairMode="rotate", ProgMode="rotate")]
-    return [dict(base, MaxLen=3, BatchBytes={0, 1, 32, 72, 73, 3032, HUGE}, NegBatch=True, ExtraShapes={0, 1, 10, 22},
+    return [dict(base, MaxLen=3, BatchBytes={0, 1, 72, 73, HUGE}, NegBatch=True, ExtraShapes={0, 1, 10, 22},
                  Ops={"logs", "stable"}, PairMode="all", ProgMode="rotate"),
-            dict(base, MaxLen=4, BatchBytes={0, 1, 72, 73, HUGE}, NegBatch=False, ExtraShapes={0}, Ops={"logs"},
-                 PairMode="rotate", ProgMode="rotate")]
+            dict(base, MaxLen=4, Firsts={5}, BatchBytes={0, 1, 72, 3032, HUGE}, NegBatch=False, ExtraShapes={0},
+                 Ops={"logs"}, PairMode="rotate", ProgMode="rotate")]
 
 
 # ----------------------------------------------------------------------------- TLC: design + generation
@@ -416,13 +416,16 @@ def check(pid, tier, seed):
     # ---- drift
     design = "pinned" if any(ev["err"] == "other" and it["scen"]["op"] == "logs" and it["scen"]["n"] == 0
                              and it["scen"]["call"] == "none" for it, ev in zip(items, evs)) else "repaired"
-    drift, skipped = [], 0
+    drift, skipped, dropped = [], 0, 0
     for it, ev in zip(items, evs):
         d = drift_of(it, ev, design)
         if d is None:
             skipped += 1
         elif d:
-            drift.append({"scenario": it["scen"], "diff": d})
+            if all(x.startswith("progress messages") for x in d):
+                dropped += 1     # delivery is documented as best effort (1 ms wait): not even drift
+            else:
+                drift.append({"scenario": it["scen"], "diff": d})
     pairs = sorted({(it["scen"]["src"], it["scen"]["dst"]) for it in items})
     samples = []
     for it, ev in list(zip(items, evs))[:: max(1, len(items) // 3)][:3]:
@@ -448,6 +451,7 @@ def check(pid, tier, seed):
         "empty_source_design_followed_by_tree": "BUG_EmptySourceLoop=%s" % ("TRUE" if design == "pinned" else "FALSE"),
         "behaviours_of_the_other_design_not_compared": skipped,
         "impl_drift_samples": drift[:5],
+        "calls_with_progress_messages_dropped_best_effort": dropped,
         "results": {k: sum(1 for ev in evs if ev["err"] == k) for k in sorted({ev["err"] for ev in evs})},
         "model_constants": [{k: (sorted(v) if isinstance(v, (set, frozenset)) else v) for k, v in c.items()} for c in tiers(tier, seed)],
         "tlc": stats,
